@@ -109,6 +109,17 @@ claim("C09",
       "cannot be faked (environment variation covers GOMAXPROCS, TZ, locale, USER, cwd depth).",
       "TLC exhaustive model checking of histories + replay with the real goa CLI + TLC trace validation", "DESIGN.md 6 (C09)")
 
+claim("C11",
+      "Eval.tla (registered roots, dependency relation, two expression sets per root, behaviours plain/append/appendsame/register-root/report-error/"
+      "validation-error; ComputeOrder with any topological order or the cycle error, per-expression Exec/Prepare/Validate/Finalize steps, phase barriers, "
+      "late-root pick-up) is model-checked exhaustively for 2 and 3 roots and a late-root family (quick), every digraph x registration order on 4 roots "
+      "(thorough), with Termination under fairness; every configuration runs on the real eval.RunDSL with recording Root/Expression/Source/Preparer/Validator/"
+      "Finalizer stubs and the callback log plus the returned error are judged by TLC trace validation (the order Roots() used is bound from the trace); "
+      "random 5-6-root graphs likewise.",
+      "Trusted: the recording stubs in harness/drivers/eval (the engine's observable is the order in which it calls user-implemented interfaces). When late "
+      "roots close a cycle and the DSL also reported errors either error is accepted.",
+      "TLC exhaustive model checking + TLC trace validation of real callback logs", "DESIGN.md 6 (C11)")
+
 for p in ALL:
     if p not in CLAIMED:
         NOT_APPLICABLE[p] = "check not built yet in this revision (planned with the same technique, see DESIGN.md section 6)"
